@@ -27,6 +27,10 @@ class ExprError(Exception):
 
 
 def _myround(number_to_round, decimal_places):
+    if isinstance(number_to_round, int) and -int(decimal_places) > number_to_round.bit_length():
+        # 10 ** -decimal_places exceeds 2 * abs(number): the result is 0.  Do not let round()
+        # build that power of ten (round(7, -3000000) computes a 3-million-digit integer).
+        return 0
     if int(decimal_places) == 0 and round(number_to_round + 1) - round(number_to_round) != 1:
         return number_to_round + abs(number_to_round) / number_to_round * 0.5  # simulate Python 2 rounding
         # via https://stackoverflow.com/questions/21839140/
